@@ -219,6 +219,13 @@ class FieldCollection(FieldBase):
             msg = f"Unsupported index `{index}`"
             raise TypeError(msg)
 
+    def __setstate__(self, state: dict[str, Any]) -> None:
+        super().__setstate__(state)
+        # pickling and deep-copying detach the data of the individual fields from the
+        # data of the collection -> restore the links
+        for i, field in enumerate(self._fields):
+            field._data_flat = self._data_full[self._slices[i]]
+
     @property
     def fields(self) -> list[DataFieldBase]:
         """list: the fields of this collection"""
